@@ -24,6 +24,14 @@ type c10Row struct {
 	A  *int64
 	B  int64
 	S  string
+}
+
+// c10RowJ: C10's table has a JSON column on top (C07 shares c10Row and its four columns)
+type c10RowJ struct {
+	Id int64 `sql:",primary"`
+	A  *int64
+	B  int64
+	S  string
 	J  c10J `sql:",json"`
 }
 
@@ -108,7 +116,7 @@ func c10EncFilter(f []c10KV) interface{} {
 	return out
 }
 
-func c10Ids(rows []*c10Row) []int64 {
+func c10Ids(rows []*c10RowJ) []int64 {
 	out := []int64{}
 	for _, r := range rows {
 		out = append(out, r.Id)
@@ -147,13 +155,13 @@ func c10One(c *Ctx, m *Model, cs c10Case) {
 		table = append(table, []interface{}{[]interface{}{0, r[0]}, []interface{}{1, am}, []interface{}{2, r[2]}, []interface{}{3, r[3]}, []interface{}{4, r[4]}})
 	}
 	schema := sqlgen.NewSchema()
-	schema.MustRegisterType("rows", sqlgen.UniqueId, c10Row{})
+	schema.MustRegisterType("rows", sqlgen.UniqueId, c10RowJ{})
 	db := sqlgen.NewDB(conn, schema)
 	k := len(cs.Filters)
 	alone := make([][]int64, k)
 	aloneErr := make([]error, k)
 	for i, f := range cs.Filters {
-		var out []*c10Row
+		var out []*c10RowJ
 		aloneErr[i] = db.Query(context.Background(), &out, c10Filter(f), nil)
 		alone[i] = c10Ids(out)
 	}
@@ -172,7 +180,7 @@ func c10One(c *Ctx, m *Model, cs c10Case) {
 					panicked = p
 				}
 			}()
-			var out []*c10Row
+			var out []*c10RowJ
 			batchedErr[i] = db.Query(ctx, &out, c10Filter(cs.Filters[i]), nil)
 			batched[i] = c10Ids(out)
 		}(i)
@@ -239,10 +247,13 @@ func c10Valid(f []c10KV) bool {
 	return true
 }
 
-func c10GenFilter(r *Rand) []c10KV {
+func c10GenFilter(r *Rand) []c10KV { return c10GenFilterN(r, 8) }
+
+// c10GenFilterN: kinds 0..7 are filters on the four plain columns; 8, 9 use the JSON column; 10 is rejected by sqlgen
+func c10GenFilterN(r *Rand, kinds int) []c10KV {
 	intRep := func() string { return []string{"int64", "int64", "int", "ptr", "named"}[r.Intn(5)] }
 	var f []c10KV
-	switch r.Intn(11) {
+	switch r.Intn(kinds) {
 	case 8:
 		f = []c10KV{{"j", c10Val{[]string{"json", "jsonptr"}[r.Intn(2)], int64(r.Intn(3))}}}
 	case 9:
@@ -325,7 +336,7 @@ func runC10(c *Ctx) error {
 			if len(cs.Filters) > 0 && r.Chance(0.15) {
 				cs.Filters = append(cs.Filters, cs.Filters[r.Intn(len(cs.Filters))])
 			} else {
-				cs.Filters = append(cs.Filters, c10GenFilter(r))
+				cs.Filters = append(cs.Filters, c10GenFilterN(r, 11))
 			}
 		}
 		c10One(c, m, cs)
